@@ -50,7 +50,7 @@ structure Kin (K : Type) where
   vB : V3 K
 
 /-- `CalcPointVelocityInGround`: `v_BG + w_BG % (point_G − x_BG)` -/
-def pointVel (k : Kin K) (p : V3 K) : V3 K := add k.vB (cross k.w (sub k.xB p))
+def pointVel (k : Kin K) (p : V3 K) : V3 K := add k.vB (cross k.w (sub p k.xB))
 
 /-- what lies between origin and termination, in path order -/
 inductive Elem (K : Type) where
